@@ -83,6 +83,7 @@ class World:
         self.unk = data.make_catalog(root / "unk", data.frame(seed + 1, n, npatch, sep_deg=3.0, spread_deg=1.6), centers, redshifts=False)
         self.rnd = data.make_catalog(root / "rnd", drnd, centers)
         self.tmp = root / "tmp"
+        self.progress = False      # run the entry points with the progress display on (results pass through the Indicator)
 
     def fresh(self, which: str):
         src = self.root / which
@@ -104,7 +105,7 @@ class World:
     def ep_build(self, W):
         path = self.fresh("ref")
         cat = self.yaw.Catalog(path, max_workers=1)
-        cat.build_trees(self.config.binning.edges, closed=self.config.binning.closed, max_workers=W)
+        cat.build_trees(self.config.binning.edges, closed=self.config.binning.closed, max_workers=W, progress=self.progress)
         out = {}
         from yaw.catalog.trees import BinnedTrees
 
@@ -121,7 +122,7 @@ class World:
 
     def ep_hist(self, W):
         cat = self.yaw.Catalog(self.root / "ref", max_workers=1)
-        h = self.yaw.HistData.from_catalog(cat, self.config, max_workers=W)
+        h = self.yaw.HistData.from_catalog(cat, self.config, max_workers=W, progress=self.progress)
         return dict(data=h.data.tobytes().hex(), samples=h.samples.tobytes().hex(), shape=list(h.samples.shape))
 
     def _links(self):
@@ -140,19 +141,19 @@ class World:
         self.links = self._links().from_catalogs(self.config, self.cref, self.cunk, self.crnd)
 
     def ep_count_auto(self, W):
-        (nc,) = self.links.count_pairs(self.cref, max_workers=W)
+        (nc,) = self.links.count_pairs(self.cref, max_workers=W, progress=self.progress)
         return _nc_digest(nc)
 
     def ep_count_cross(self, W):
-        (nc,) = self.links.count_pairs(self.cref, self.cunk, max_workers=W)
+        (nc,) = self.links.count_pairs(self.cref, self.cunk, max_workers=W, progress=self.progress)
         return _nc_digest(nc)
 
     def ep_crosscorrelate(self, W):
-        (cf,) = self.yaw.crosscorrelate(self.config, self.cref, self.cunk, unk_rand=self.crnd, max_workers=W)
+        (cf,) = self.yaw.crosscorrelate(self.config, self.cref, self.cunk, unk_rand=self.crnd, max_workers=W, progress=self.progress)
         return data.corrfunc_fingerprint(cf)
 
     def ep_autocorrelate(self, W):
-        (cf,) = self.yaw.autocorrelate(self.config, self.cref, self.crnd, max_workers=W)
+        (cf,) = self.yaw.autocorrelate(self.config, self.cref, self.crnd, max_workers=W, progress=self.progress)
         return data.corrfunc_fingerprint(cf)
 
 
@@ -203,7 +204,15 @@ def run_with_orders(world: World, ep: str, W: int, orders_for_call):
         return order
 
     fn = getattr(world, f"ep_{ep}")
-    sched, outcome = detrt.run_main(lambda: fn(W), order_source=order_source)
+    # every other schedule runs with the progress display on: results then pass through the Indicator wrapper
+    world.progress = sum(orders_for_call(0, W, 4)) % 2 == 1 if ep in ("build", "hist", "count_auto") else (len(calls) + W) % 2 == 1
+    from harness.yawenv import quiet_fds
+
+    try:
+        with quiet_fds():
+            sched, outcome = detrt.run_main(lambda: fn(W), order_source=order_source)
+    finally:
+        world.progress = False
     return outcome, calls, sched
 
 
